@@ -1,3 +1,4 @@
+use crate::scheme::scheme_escape;
 use std::collections::HashMap;
 
 /// A convenience struct to store output port information
@@ -188,7 +189,7 @@ impl SchemeManager for LocalSchemeManager {
     }
 
     fn get_file_printer(&mut self, filename: &str, terminator: Option<char>) -> String {
-        let port = self.init_file_port(filename.to_string());
+        let port = self.init_file_port(scheme_escape(filename));
         let printer_index = self.register_printer(port, terminator);
 
         format!("%lf3:print:{printer_index}")
@@ -200,7 +201,7 @@ impl SchemeManager for LocalSchemeManager {
     fn get_matcher(&mut self, pattern: &str, insensitive: bool) -> String {
         format!(
             "%lf3:match:{}",
-            self.register_str_match(pattern, insensitive)
+            self.register_str_match(&scheme_escape(pattern), insensitive)
         )
     }
 
@@ -328,7 +329,7 @@ impl SchemeManager for DistributedSchemeManager {
     fn get_matcher(&mut self, pattern: &str, insensitive: bool) -> String {
         format!(
             "%lf3:match:{}",
-            self.register_str_match(pattern, insensitive)
+            self.register_str_match(&scheme_escape(pattern), insensitive)
         )
     }
 
